@@ -60,6 +60,24 @@ FORMATS = ["tsv", "csv", "tsv.gz", "csv.gz", "json", "pickle"]
 
 
 # --------------------------------------------------------------------------
+# translator step: the argument resolution of Table.sorted / inner_join / joined, from the CURRENT source text
+# --------------------------------------------------------------------------
+def generate(ctx):
+    import sys
+
+    from .common import LEAN, SRC, VERIF
+
+    sys.path.insert(0, str(VERIF))
+    from translator import c20_args2lean
+
+    lean, info, problems = c20_args2lean.translate(SRC / "util" / "table.py")
+    ctx.notes.append(f"c20_args2lean: {info}")
+    if lean is not None and c20_args2lean.write_if_changed(LEAN / "CogentModel" / "Gen" / "C20Args.lean", lean):
+        ctx.notes.append("Gen/C20Args.lean was rewritten (the translated statements of util/table.py differ from the last generated text)")
+    return [f"c20_args2lean: {p}" for p in problems]
+
+
+# --------------------------------------------------------------------------
 # canonical forms
 # --------------------------------------------------------------------------
 def _py(v):
@@ -433,7 +451,7 @@ def gen_case(rng, op=None):
     op = op or rng.choice(
         ["sorted", "sorted", "sorted", "inner_join", "inner_join", "natural_join", "cross_join", "filtered", "filtered",
          "count_unique", "distinct_values", "appended", "transposed", "get_columns", "with_new_column", "with_new_column",
-         "count", "row_indices", "filtered_by_column", "getitem", "getitem"]
+         "count", "row_indices", "filtered_by_column", "getitem", "getitem", "inner_join_args", "inner_join_args", "joined_args"]
     )
     if op == "sorted":
         t = gen_table(rng, nrows=rng.choice([1, 2, 3, 3, 4, 5, 6, 9, 15, 30, 60]))
@@ -460,7 +478,16 @@ def gen_case(rng, op=None):
             reverse = reverse[0]
         if reverse == [] and rng.random() < 0.5:
             reverse = None
-        return dict(op=op, t=t, columns=columns, reverse=reverse)
+        case = dict(op=op, t=t, columns=columns, reverse=reverse)
+        # the arguments may also be tuples (`reverse=()` is not generated: `() != []` sends the code down the
+        # "only reverse given" path with no key column at all, see sort_args_empty_tuple_counter)
+        if isinstance(columns, list) and rng.random() < 0.25:
+            case["columns_form"] = "tuple"
+        if isinstance(reverse, list) and reverse and rng.random() < 0.25:
+            case["reverse_form"] = "tuple"
+        return case
+    if op in ("inner_join_args", "joined_args"):
+        return gen_join_args(rng, op)
     if op in ("inner_join", "natural_join", "cross_join"):
         small = op == "cross_join"
         t = gen_table(rng, nrows=rng.choice([0, 1, 2, 3, 4, 6] if small else [0, 1, 2, 3, 5, 8, 14]))
@@ -522,7 +549,10 @@ def gen_case(rng, op=None):
         t = gen_table(rng)
         k = rng.randint(1, len(t["header"]))
         columns = rng.sample(t["header"], k)
-        return dict(op=op, t=t, columns=columns, cols_form=gen_cols_form(rng, columns))
+        case = dict(op=op, t=t, columns=columns, cols_form=gen_cols_form(rng, columns))
+        if op == "count_unique" and rng.random() < 0.15:
+            case["columns"], case["cols_form"] = list(norm(t)["header"]), "none"  # columns=None: all columns, in header order
+        return case
     if op == "get_columns":
         t = gen_table(rng)
         k = rng.randint(1, len(t["header"]))
@@ -628,6 +658,105 @@ def gen_case(rng, op=None):
     raise ValueError(op)
 
 
+def arg_form(rng, names):
+    """how a key-column argument is spelled: {"form": none|str|list|tuple, "names": [...]}"""
+    if names is None:
+        return dict(form="none", names=[])
+    if len(names) == 1 and rng.random() < 0.4:
+        return dict(form="str", names=list(names))
+    return dict(form=rng.choice(["list", "list", "tuple"]), names=list(names))
+
+
+def spell_arg(a):
+    if a is None or a["form"] == "none":
+        return None
+    if a["form"] == "str":
+        return a["names"][0]
+    if a["form"] == "ints":
+        return list(a["ints"])  # column positions (`Columns._get_keys_` resolves them; outside the Lean value domain)
+    return tuple(a["names"]) if a["form"] == "tuple" else list(a["names"])
+
+
+def arg_names(a):
+    return None if a is None or a["form"] == "none" else list(a["names"])
+
+
+def arg_j(a):
+    """json of an argument for the driver: null | "name" | [names] | {"tuple": [names]}"""
+    v = spell_arg(a)
+    return {"tuple": list(v)} if isinstance(v, tuple) else v
+
+
+def gen_join_args(rng, op):
+    """inner_join / joined with every way of (not) saying which columns are the keys: both sides, one side only,
+    none (natural join; the two index columns with use_index), as str / list / tuple, with use_index, col_prefix,
+    inner_join=False with and without columns"""
+    if op == "inner_join_args":
+        mode = rng.choice(["both", "both", "self_only", "other_only", "natural", "index", "index", "index_missing"])
+    else:
+        mode = rng.choice(["both", "self_only", "other_only", "natural", "natural", "cross", "cross_cols"])
+    if mode in ("index", "index_missing"):
+        t = gen_table(rng, nrows=rng.choice([0, 1, 2, 3, 5, 8]), index=False)
+        add_index(rng, t)
+        others = [n for n in NAMES if n not in t["header"]]
+        u = gen_table(rng, nrows=rng.choice([0, 1, 2, 3, 5, 8]), names=rng.sample(others, rng.choice([1, 2, 3])), index=False)
+        m = len(u["cols"][0])
+        j = rng.randrange(len(u["header"]))
+        tl = list(t["cols"][t["header"].index(t["index"])])
+        pool = tl + [x for x in ["zz1", "zz2", "zz3", -7, -8, "r1", "r2"] if x not in tl]
+        # labels of other: unique, partly shared with self's
+        cand = []
+        for x in pool:
+            if canon(x) not in [canon(y) for y in cand]:
+                cand.append(x)
+        while len(cand) < m:
+            cand.append("u%d" % len(cand))
+        u["cols"][j] = rng.sample(cand, m)
+        u["index"] = u["header"][j]
+        u["title"] = "U"
+        if mode == "index_missing":
+            which = rng.choice(["t", "u", "both"])
+            if which in ("t", "both"):
+                t.pop("index")
+            if which in ("u", "both"):
+                u.pop("index")
+        case = dict(op=op, t=t, u=u, cs=arg_form(rng, None), co=arg_form(rng, None), mode=mode)
+        if rng.random() < 0.5:
+            case["use_index"] = True  # (the default)
+        return case
+    base = gen_case(rng, "inner_join" if mode == "both" else "natural_join")
+    t, u = base["t"], base["u"]
+    t.pop("index", None)
+    if mode == "both":
+        ks, ko = base["ks"], base["ko"]
+    else:
+        ks = ko = [c for c in t["header"] if c in u["header"]]
+        if mode in ("self_only", "other_only") and len(ks) > 1 and rng.random() < 0.5:
+            ks = ko = rng.sample(ks, len(ks))  # the given order need not be the header's
+    case = dict(op=op, t=t, u=u, mode=mode)
+    case["cs"] = arg_form(rng, ks if mode in ("both", "self_only") or (mode == "cross_cols" and rng.random() < 0.6) else None)
+    case["co"] = arg_form(rng, ko if mode in ("both", "other_only") or (mode == "cross_cols" and case["cs"]["form"] == "none") else None)
+    if op == "inner_join_args":
+        if mode == "natural":
+            case["use_index"] = False
+        elif rng.random() < 0.6:
+            case["use_index"] = rng.random() < 0.5  # ignored when columns are given
+    else:
+        inner = mode not in ("cross", "cross_cols")
+        if not inner or rng.random() < 0.5:
+            case["inner"] = inner
+    if mode not in ("cross", "cross_cols") and rng.random() < 0.3:
+        case["col_prefix"] = rng.choice(["x_", "other ", "r"])
+    if mode in ("both", "self_only", "other_only") and rng.random() < 0.15:
+        # key columns by position ("can be either column index, or a string matching the column header"): resolved
+        # to names in the table they are given for
+        for k, td in (("cs", t), ("co", u)):
+            a = case[k]
+            if a["form"] in ("list", "tuple"):
+                a["form"], a["ints"] = "ints", [td["header"].index(c) for c in a["names"]]
+    return case
+
+
 # --------------------------------------------------------------------------
 # REAL
 # --------------------------------------------------------------------------
@@ -716,10 +845,20 @@ def run_real(case):
         if op == "sorted":
             kw = {}
             if case["columns"] is not None:
-                kw["columns"] = case["columns"]
+                kw["columns"] = tuple(case["columns"]) if case.get("columns_form") == "tuple" else case["columns"]
             if case["reverse"] is not None:
-                kw["reverse"] = case["reverse"]
+                kw["reverse"] = tuple(case["reverse"]) if case.get("reverse_form") == "tuple" else case["reverse"]
             r = t.sorted(**kw)
+        elif op in ("inner_join_args", "joined_args"):
+            kw = {}
+            if case["cs"]["form"] != "none":
+                kw["columns_self"] = spell_arg(case["cs"])
+            if case["co"]["form"] != "none":
+                kw["columns_other"] = spell_arg(case["co"])
+            for k_case, k_real in (("use_index", "use_index"), ("inner", "inner_join"), ("col_prefix", "col_prefix")):
+                if k_case in case:
+                    kw[k_real] = case[k_case]
+            r = (t.inner_join if op == "inner_join_args" else t.joined)(real_table(case["u"]), **kw)
         elif op == "inner_join":
             r = t.inner_join(real_table(case["u"]), columns_self=case["ks"], columns_other=case["ko"])
         elif op == "natural_join":
@@ -830,12 +969,39 @@ def oracle(case):
     t = norm(case["t"])
     R = rows_of(t)
     H = t["header"]
-    if op in ("inner_join", "natural_join", "cross_join"):
+    if op in ("inner_join", "natural_join", "cross_join", "inner_join_args", "joined_args"):
         u = norm(case["u"])
         S, HU = rows_of(u), u["header"]
-        if op == "cross_join":
+        pre = case.get("col_prefix") or "right_"
+        if op in ("inner_join_args", "joined_args"):
+            # the docstrings: key columns as given (a single name = a one-element list); only one side given: the same
+            # labels for both tables; none given: the shared names (natural join: joined, use_index=False) or the two
+            # index columns (use_index, the default of inner_join); joined(inner_join=False) is the cross join and
+            # takes no columns
+            cs, co = arg_names(case["cs"]), arg_names(case["co"])
+            if op == "joined_args" and not case.get("inner", True):
+                if cs is not None or co is not None:
+                    return dict(err="AssertionError")
+                return dict(header=H + ["right_" + c for c in HU], rows=[r + s for r in R for s in S])
+            use_index = case.get("use_index", True) if op == "inner_join_args" else False
+            if cs is None and co is None:
+                if use_index:
+                    if t.get("index") is None or u.get("index") is None:
+                        return dict(err="ValueError")
+                    ks, ko = [t["index"]], [u["index"]]
+                else:
+                    ks = ko = [c for c in H if c in HU]
+            elif cs is None:
+                ks = ko = co
+            elif co is None:
+                ks = ko = cs
+            else:
+                ks, ko = cs, co
+            if len(ks) != len(ko):
+                return dict(err="RuntimeError")
+        elif op == "cross_join":
             return dict(header=H + ["right_" + c for c in HU], rows=[r + s for r in R for s in S])
-        if op == "natural_join":
+        elif op == "natural_join":
             shared = [c for c in H if c in HU]
             ks = ko = shared
         else:
@@ -843,7 +1009,7 @@ def oracle(case):
         iS, iO = [H.index(c) for c in ks], [HU.index(c) for c in ko]
         keep = [j for j, c in enumerate(HU) if c not in ko]
         rows = [r + [s[j] for j in keep] for r in R for s in S if [canon(r[i]) for i in iS] == [canon(s[i]) for i in iO]]
-        return dict(header=H + ["right_" + HU[j] for j in keep], rows=rows)
+        return dict(header=H + [pre + HU[j] for j in keep], rows=rows)
     if op in ("filtered", "count", "row_indices"):
         idx = [H.index(c) for c in case["columns"]]
         p = mk_pred(case["pred"])
@@ -1778,6 +1944,20 @@ def corr_table_text(ctx, out):
 def model_req(case):
     op = case["op"]
     d = dict(op=op, t=table_j(case["t"]))
+    if op == "sorted":
+        # raw argument forms: the key columns are resolved by the TRANSLATED statements of Table.sorted
+        d["op"] = "sorted_args"
+        for k in ("columns", "reverse"):
+            v = case[k]
+            d[k] = {"tuple": list(v)} if v is not None and case.get(k + "_form") == "tuple" else v
+        return ("op", d)
+    if op in ("inner_join_args", "joined_args"):
+        d["u"] = table_j(case["u"])
+        d["cs"], d["co"] = arg_j(case["cs"]), arg_j(case["co"])
+        for k in ("use_index", "inner", "col_prefix"):
+            if k in case:
+                d[k] = case[k]
+        return ("op", d)
     if "u" in case:
         d["u"] = table_j(case["u"])
     for k in ("ks", "ko", "new", "select", "negate", "with_index", "cpred", "rows", "cb"):
@@ -1812,6 +1992,8 @@ def modelable(case):
     if not all(ok_table(t) for t in tabs):
         return False
     if case["op"] == "getitem" and case["rows"][0] == "label":
+        return False
+    if any((case.get(k) or {}).get("form") == "ints" for k in ("cs", "co") if isinstance(case.get(k), dict)):
         return False
     if case["op"] == "transposed":
         t = norm(case["t"])
